@@ -31,6 +31,7 @@ func c13(c *Ctx) {
 	c13kubeTombstone(c)
 	c13optionsFirst(c)
 	c13stickyDisconnect(c)
+	c13targetKey(c)
 	c13waitHolding(c)
 }
 
